@@ -111,7 +111,12 @@ func (a *kAggregate) Next(ctx context.Context) ([]model.StepVector, error) {
 
 	result := a.vectorPool.GetVectorBatch()
 	for i, vector := range in {
-		a.aggregate(vector.T, &result, int(a.params[i]), vector.SampleIDs, vector.Samples)
+		// Same rule as the Prometheus engine: a parameter that cannot be an
+		// int64 (NaN, overflow) fails the query.
+		if !(a.params[i] <= math.MaxInt64 && a.params[i] >= math.MinInt64) {
+			return nil, errors.Newf("Scalar value %v overflows int64", a.params[i])
+		}
+		a.aggregate(vector.T, &result, int(int64(a.params[i])), vector.SampleIDs, vector.Samples)
 		a.next.GetPool().PutStepVector(vector)
 	}
 
@@ -162,6 +167,13 @@ func (a *kAggregate) init(ctx context.Context) error {
 }
 
 func (a *kAggregate) aggregate(t int64, result *[]model.StepVector, k int, SampleIDs []uint64, samples []float64) {
+	// One step vector per step, holding the elements of all groups.
+	s := a.vectorPool.GetStepVector(t)
+	if k < 1 {
+		*result = append(*result, s)
+		return
+	}
+
 	for i, sId := range SampleIDs {
 		h := a.inputToHeap[sId]
 		if h.Len() < k || h.compare(h.entries[0].total, samples[i]) || math.IsNaN(h.entries[0].total) {
@@ -180,7 +192,6 @@ func (a *kAggregate) aggregate(t int64, result *[]model.StepVector, k int, Sampl
 	}
 
 	for _, h := range a.heaps {
-		s := a.vectorPool.GetStepVector(t)
 		// The heap keeps the lowest value on top, so reverse it.
 		if len(h.entries) > 1 {
 			sort.Sort(sort.Reverse(h))
@@ -190,9 +201,9 @@ func (a *kAggregate) aggregate(t int64, result *[]model.StepVector, k int, Sampl
 			s.SampleIDs = append(s.SampleIDs, e.sId)
 			s.Samples = append(s.Samples, e.total)
 		}
-		*result = append(*result, s)
 		h.entries = h.entries[:0]
 	}
+	*result = append(*result, s)
 }
 
 type entry struct {
